@@ -721,6 +721,31 @@ pub fn c08(a: &Args) -> (Stats, String) {
         },
     );
     let mut st = st;
+    // valid-digit slice: the inputs that reach the big-integer and table-indexing code (near-halfway cases at every
+    // decimal exponent, zero-limb runs, IEEE thresholds, deciding digits at every cut-off), under the same monitors
+    let mut valid_cases = 0u64;
+    if let (Some(h), false) = (&a.hard, small) {
+        let mut jobs: Vec<Job> = Vec::new();
+        jobs.extend(crate::hard_jobs(h, fam::MBOTH));
+        jobs.extend(crate::gap_jobs(h));
+        jobs.extend(fam::boundary_deep(F64, 64, a.seed, 769, false));
+        jobs.extend(fam::boundary_deep(F32, 16, a.seed, 114, false));
+        jobs.extend(fam::threshold_family(F64, false));
+        jobs.extend(fam::threshold_family(F32, false));
+        jobs.extend(fam::extreme(false));
+        let st2 = run_jobs(
+            &jobs,
+            |st, _j, c: &Case| {
+                st.cases += 1;
+                st.nontrivial += 1;
+                c08_call(st, c.int, c.frac, c.exp);
+            },
+            |_s, _j| {},
+        );
+        valid_cases = st2.cases;
+        st.merge(st2);
+    }
+    st.add("valid_digit_slice_cases", valid_cases);
     st.sample("int=[0xFF,'0',':'] frac=['/',0x00] exp=-330".into());
     st.sample("int=[0x7F x 800 with 0xFF at position 97] frac=[] exp=i32::MIN".into());
     st.sample("int=[] frac=[':' x 10000] exp=400".into());
